@@ -41,8 +41,12 @@ def _frame(cols, labels, index, consolidate, name=None):
 
 @st.composite
 def label_cases(draw):
-    n = draw(st.integers(1, 6))
-    m = draw(st.integers(2, 4))
+    # decisive choices first (late draws are pinned to their first option for a share of Hypothesis's examples)
+    what = draw(st.sampled_from(['set_unset', 'set_hier', 'shift_in_out', 'shift_out_in', 'set_keep']))
+    consolidate, axis = draw(st.booleans()), draw(st.integers(0, 1))
+    m = draw(st.sampled_from([3, 2, 4]))
+    k0, k1 = draw(st.integers(0, m - 1)), draw(st.integers(0, m - 1))
+    n = draw(st.sampled_from([4, 2, 3, 1, 5, 6]))
     cols = []
     for j in range(m):
         k = draw(st.sampled_from(['int', 'str', 'float']))
@@ -52,8 +56,7 @@ def label_cases(draw):
             cols.append(np.array(draw(st.lists(st.sampled_from(['a', 'b', 'c']), min_size=n, max_size=n)), dtype='<U1'))
         else:
             cols.append(np.array(draw(st.lists(st.sampled_from([0.5, 1.5, 2.5]), min_size=n, max_size=n))))
-    return {'cols': cols, 'n': n, 'what': draw(st.sampled_from(['set_unset', 'set_hier', 'shift_in_out', 'shift_out_in', 'set_keep'])),
-            'k0': draw(st.integers(0, m - 1)), 'k1': draw(st.integers(0, m - 1)), 'consolidate': draw(st.booleans()), 'axis': draw(st.integers(0, 1))}
+    return {'cols': cols, 'n': n, 'what': what, 'k0': k0, 'k1': k1, 'consolidate': consolidate, 'axis': axis}
 
 
 def check_labels(case):
@@ -224,15 +227,16 @@ AGG = {'sum': (np.nansum, sum), 'min': (np.nanmin, min), 'max': (np.nanmax, max)
 
 @st.composite
 def pivot_cases(draw):
-    n = draw(st.integers(1, 8))
+    opts = {'two_index': draw(st.booleans()), 'use_columns': draw(st.booleans()), 'two_data': draw(st.booleans()),
+            'func': draw(st.sampled_from(['default', 'sum', 'min', 'max', 'len', 'std', 'map'])),
+            'fill': draw(st.sampled_from([float('nan'), 0, 'ff', None])), 'consolidate': draw(st.booleans())}  # decisive choices first
+    n = draw(st.sampled_from([5, 3, 8, 1, 2, 4, 6, 7]))
     ik = draw(st.lists(st.sampled_from(['i0', 'i1', 'i2']), min_size=n, max_size=n))
     ck = draw(st.lists(st.sampled_from(['p', 'q', 'r']), min_size=n, max_size=n))
     ik2 = draw(st.lists(st.integers(0, 1), min_size=n, max_size=n))
     d0 = draw(st.lists(st.integers(-9, 9), min_size=n, max_size=n))
     d1 = draw(st.lists(st.sampled_from([0.5, 1.5, -2.0, 4.0]), min_size=n, max_size=n))
-    return {'n': n, 'ik': ik, 'ck': ck, 'ik2': ik2, 'd0': d0, 'd1': d1, 'two_index': draw(st.booleans()), 'use_columns': draw(st.booleans()),
-            'two_data': draw(st.booleans()), 'func': draw(st.sampled_from(['default', 'sum', 'min', 'max', 'len', 'std', 'map'])),
-            'fill': draw(st.sampled_from([float('nan'), 0, 'ff', None])), 'consolidate': draw(st.booleans())}
+    return dict({'n': n, 'ik': ik, 'ck': ck, 'ik2': ik2, 'd0': d0, 'd1': d1}, **opts)
 
 
 def check_pivot(case):
@@ -319,14 +323,15 @@ def _close(a, b):
 
 @st.composite
 def join_cases(draw):
-    nl, nr = draw(st.integers(1, 5)), draw(st.integers(1, 5))
+    opts = {'kind': draw(st.sampled_from(['inner', 'left', 'right', 'outer'])), 'composite': draw(st.booleans()),
+            'index_overlap': draw(st.sampled_from(['same', 'disjoint', 'partial'])), 'fill': draw(st.sampled_from([float('nan'), -1, 'ff', None])),
+            'template': draw(st.booleans()), 'key_in_index': draw(st.sampled_from(['none', 'none', 'left', 'right'])), 'consolidate': draw(st.booleans()),
+            'str_payload': draw(st.booleans())}  # decisive choices first
+    nl, nr = draw(st.sampled_from([3, 2, 4, 1, 5])), draw(st.sampled_from([3, 2, 4, 1, 5]))
     pool = draw(st.sampled_from([[1, 2, 3], ['a', 'b', 'c'], [1, 2]]))
     lk = draw(st.lists(st.sampled_from(pool), min_size=nl, max_size=nl))
     rk = draw(st.lists(st.sampled_from(pool + ([9] if isinstance(pool[0], int) else ['z'])), min_size=nr, max_size=nr))
-    return {'lk': lk, 'rk': rk, 'kind': draw(st.sampled_from(['inner', 'left', 'right', 'outer'])), 'composite': draw(st.booleans()),
-            'index_overlap': draw(st.sampled_from(['same', 'disjoint', 'partial'])), 'fill': draw(st.sampled_from([float('nan'), -1, 'ff', None])),
-            'template': draw(st.booleans()), 'key_in_index': draw(st.sampled_from(['none', 'none', 'left', 'right'])), 'consolidate': draw(st.booleans()),
-            'str_payload': draw(st.booleans())}
+    return dict({'lk': lk, 'rk': rk}, **opts)
 
 
 def check_join(case):
